@@ -102,7 +102,8 @@ CHECKS = {
               "stay and every one that fails must go, no other file (and with --copy nothing in the source) may change, and every "
               "non-Markov guess of the edited ruleset must respect the bounds. One open finding (F20: context label X<n> counted as n "
               "characters) is reported as KNOWN-FINDING and excluded from the alarm by its signature only. Exploration."),
-        design='4/C20'),
+        design='4/C20',
+        note=(NOTE_COMMON + ' Two open known findings (F20: context label X<n> counted as n characters; F20b: letters whose upper-case form is longer than one character) are matched by signature on the failing case and printed as KNOWN-FINDING; any other violation of the property still exits 1.')),
     'C10': dict(
         technique="Hypothesis property-based testing of generated OMEN models x every level, and a Hypothesis RuleBasedStateMachine over cache histories (shared optimizer), against an independent DFS reference enumerator; deterministic work budget instead of timeouts",
         text=("Generated OMEN models (n-gram 2-5, sparse/dense, dead-end and expensive-only contexts, length == n-gram size) are written "
@@ -218,7 +219,7 @@ def main():
         'engines': [{'name': 'pv', 'path': '/verif/pv', 'serves_properties': [c['property_id'] for c in checks],
                      'kind_free_text': 'Hypothesis property-based testing / stateful testing / exhaustive small-scope enumeration / atheris fuzzing with explicit oracles; ./check <ID> --tier quick|thorough'}],
         'checks': checks,
-        'notes': 'Entry point ./check <ID> --tier quick|thorough [--replay FILE]; VERIF_SEED selects the seed; evidence/<ID>.json is rewritten by every run; known_findings.jsonl lists open findings and fixed: records.',
+        'notes': 'Entry point ./check <ID> --tier quick|thorough [--replay FILE] [--part NAME]; VERIF_SEED selects the seed; evidence/<ID>.json is rewritten by every run; known_findings.jsonl lists open findings (F20, F20b for C20) and fixed: records of the 21 fix: commits in /repo; DESIGN.md section 9 describes what was built, found and how the checks were validated (pv/mutants, seeded/, sensitivity.md).',
         'not_applicable': na,
     }
     path = os.path.join(HERE, 'MANIFEST.json')
